@@ -132,6 +132,12 @@ NestedFlattens ==
 CarriesName ==
   /\ k > 0 => sv.c.m["variable"].m["name"] = VC(chain[k]).m["name"]
   /\ "compose" \in done => cv.c.m["variable"].m["name"] = VC(chain[Len(chain)]).m["name"]
+\* ... and everything the last applied variable describes itself with (its own compose list is
+\* replaced by the list of all types)
+CarriesAttributes ==
+  /\ k > 0 => Contains(sv.c.m["variable"], LastVC(SubSeq(chain, 1, k)))
+  /\ "compose" \in done => Contains(cv.c.m["variable"], LastVC(chain))
+  /\ "combine" \in done => Contains(bv.c.m["variable"], VC(Cmb(chain)))
 \* nothing but context.variable changes
 Frame(val) == Without(val.c, "variable") = Without(start.c, "variable")
 FrameVariableOnly == Frame(sv) /\ ("compose" \in done => Frame(cv)) /\ ("combine" \in done => Frame(bv))
@@ -162,5 +168,6 @@ StartsAll ==
     D("variable" :> UpdateVar(VarContext(OldTyped2), VarContext(OldTyped))) }
 
 Emitted == Done => PrintT(ToJson([chain |-> chain, start |-> start, seq |-> sv, compose |-> cv, combine |-> bv,
-                                  typed |-> AllTyped(chain) /\ DistinctTypes(chain)]))
+                                  typed |-> AllTyped(chain) /\ DistinctTypes(chain),
+                                  lastvc |-> LastVC(chain)]))
 =============================================================================
